@@ -158,6 +158,32 @@ fn read_all(b: &jammdb::Bucket, prof: &Profile, nkeys: i64, rf: &Ref, at: &str, 
         if exists != present || !pos_ok || !tail_ok {
             problems.push(json!({"kind":"seek","at":at,"key":k,"exists":exists,"got":got,"below":below,"above":above}));
         }
+        // ranges starting / ending at k
+        let kb = prof.key(k);
+        let keys_of = |it: &mut dyn Iterator<Item = Data>| -> Vec<i64> {
+            let mut v = Vec::new();
+            for d in it {
+                match d {
+                    Data::KeyValue(kv) => v.push(prof.key_id(kv.key())),
+                    Data::Bucket(n) => v.push(prof.key_id(n.name())),
+                }
+                if v.len() > 4 * nkeys as usize + 8 {
+                    break;
+                }
+            }
+            v
+        };
+        use std::ops::Bound::{Excluded, Included, Unbounded};
+        let got_from = keys_of(&mut b.range(&kb[..]..));
+        let exp_from: Vec<i64> = rf.range(k..).map(|(x, _)| *x).collect();
+        let got_after = keys_of(&mut b.range::<(std::ops::Bound<&[u8]>, std::ops::Bound<&[u8]>)>((Excluded(&kb[..]), Unbounded)));
+        let exp_after: Vec<i64> = rf.range(k + 1..).map(|(x, _)| *x).collect();
+        let got_upto = keys_of(&mut b.range::<(std::ops::Bound<&[u8]>, std::ops::Bound<&[u8]>)>((Unbounded, Included(&kb[..]))));
+        let exp_upto: Vec<i64> = rf.range(..=k).map(|(x, _)| *x).collect();
+        if got_from != exp_from || got_after != exp_after || got_upto != exp_upto {
+            problems.push(json!({"kind":"range","at":at,"key":k,"from":[got_from, exp_from],"after":[got_after, exp_after],
+                                 "upto":[got_upto, exp_upto]}));
+        }
     }
 }
 
